@@ -1,9 +1,16 @@
-import Model.Submit
+import Proofs.SubmitPending
 
-/-! # C08 — the pending-submission limit throttles but never deadlocks block production
-(first theorems) -/
+/-!
+# C08 — the pending-submission limit throttles but never deadlocks block production
+
+Model: `Producer.pendingRefuses` (`block/manager.go:601-604`; the counters are `height − watermark`,
+`block/pending_base.go:74-81`), `Producer.publish`, the submission loops of `Model/Submit.lean`; executable and compared
+with the real code on every run (stream C08).
+-/
 namespace Spec.C08
 open Wire Chain Producer Submit
+
+/-! ## safety -/
 
 /-- production is refused only when one of the two counters has reached the configured limit -/
 theorem refusal_needs_limit (c : Cfg) (n : Node) (h : pendingRefuses c n = true) :
@@ -14,5 +21,138 @@ theorem refusal_needs_limit (c : Cfg) (n : Node) (h : pendingRefuses c n = true)
 /-- without a limit nothing is ever refused -/
 theorem no_limit_no_refusal (c : Cfg) (n : Node) (h : c.maxPending = 0) : pendingRefuses c n = false := by
   simp [pendingRefuses, h]
+
+/-- a refused step changes nothing -/
+theorem refused_step_is_noop (c : Cfg) (n : Node) (r : SeqResp) (e : ExecResp) (h : pendingRefuses c n = true) :
+    publish c n r e = (n, [], .refused) := by
+  unfold publish; rw [if_pos h]
+
+/-- **What the header counter counts** (with the soundness of the watermark, C06).  Along every interleaving of
+production, header submission, data submission (any DA answers) and inclusion, from a fresh start of a chain with
+initial height 1: the header watermark is at most the chain height, and every height `1 ≤ h ≤ hdrWm` is a stored block
+whose header blob the DA double holds.  Hence `height − hdrWm` is exactly the number of committed heights
+`(hdrWm, height]` whose header the DA layer has not yet acknowledged — and when production is refused, that number, or
+the corresponding data counter, has reached the limit. -/
+theorem C08_refusal_counts_unacknowledged (c : Cfg) (h1 : c.initialHeight = 1) (acts : List Act) :
+    let a := runA c { n := freshNode c } acts
+    a.n.hdrWm ≤ a.n.store.height ∧
+    (∀ h, 1 ≤ h → h ≤ a.n.hdrWm → ∃ b dh, a.n.store.getBlock h = some b ∧ b.sh.hdr.height = h ∧
+      (dh, false, h) ∈ a.daBlobs) ∧
+    (pendingRefuses c a.n = true → c.maxPending ≠ 0 ∧
+      (a.n.store.height - a.n.hdrWm ≥ c.maxPending ∨ a.n.store.height - a.n.dataWm ≥ c.maxPending)) := by
+  have w := (W_fresh c h1).run acts
+  exact ⟨w.le, fun h ha hb => w.acc h (by omega) hb, refusal_needs_limit c _⟩
+
+/-! ## liveness, header half -/
+
+/-- **After one header iteration against a DA layer that accepts (after fewer than 30 non-cancellation failures), no
+header is pending**: `height − hdrWm = 0`, so the header counter never keeps production refused. -/
+theorem C08_header_counter_clears (a : ANode) (fails tail : List DAAns)
+    (htail : tail.headD (.ok none) = .ok none) (hnc : DAAns.canceled ∉ fails) (hf : fails.length < maxSubmitAttempts)
+    (hok : ∀ h, a.n.hdrWm < h → h ≤ a.n.store.height → ∃ b, a.n.store.getBlock h = some b ∧ b.sh.hdr.height = h)
+    (hle : a.n.hdrWm ≤ a.n.store.height) :
+    (headersIter a (fails ++ tail)).1.n.store.height - (headersIter a (fails ++ tail)).1.n.hdrWm = 0 := by
+  have := (headersIter_reaches a fails tail htail hnc hf hok hle).1
+  omega
+
+/-! ## liveness, data half -/
+
+/-- full statement: with a DA layer that accepts, after one header iteration and one data iteration production is not
+refused — for every chain, in particular an idle one that produces only empty blocks -/
+def C08_data_full : Prop :=
+  ∀ (c : Cfg) (rs : List (SeqResp × ExecResp)), c.initialHeight = 1 →
+    pendingRefuses c (runOps { n := run c (freshNode c) rs } [.subH [], .subD []]).n = false
+
+def zCfg : Cfg := { chainId := "w", initialHeight := 1, genesisTime := 100, proposerAddr := [1], key := 1,
+                    signerAddr := [1], maxPending := 3 }
+/-- an idle chain: three empty blocks -/
+def zRun : List (SeqResp × ExecResp) := [(.batch [] 150 [], .ok), (.batch [] 200 [], .ok), (.batch [] 300 [], .ok)]
+def zNode : ANode := runOps { n := run zCfg (freshNode zCfg) zRun } [.subH [], .subD []]
+
+/-- the witness, evaluated by the kernel: limit 3, three empty blocks; the header iteration brings `hdrWm` to 3, the
+data iteration is skipped and leaves `dataWm = 0`; production is refused -/
+theorem zNode_facts : zNode.n.store.height = 3 ∧ zNode.n.hdrWm = 3 ∧ zNode.n.dataWm = 0 ∧
+    pendingRefuses zCfg zNode.n = true ∧
+    ∀ h ∈ [1, 2, 3], (zNode.n.store.getBlock h).map (·.data.txs) = some [] := by
+  decide +kernel
+
+/-- **The idle chain is dead**: production is refused, no header is pending, all blocks above the data watermark are
+empty -/
+theorem zNode_dead : Dead zCfg zNode := by
+  obtain ⟨h1, h2, h3, h4, h5⟩ := zNode_facts
+  refine ⟨h4, by omega, ?_⟩
+  intro h ha hb
+  have hm : h ∈ [1, 2, 3] := by simp; omega
+  have := h5 h hm
+  cases hg : zNode.n.store.getBlock h with
+  | none => rw [hg] at this; simp at this
+  | some b => rw [hg] at this; exact ⟨b, rfl, by simpa using this⟩
+
+/-- **An idle chain deadlocks at the limit, for ever** (recorded finding `C08/…/empty-blocks-pending-data`): after
+three empty blocks with limit 3, whatever the sequencer offers, whatever the DA layer answers and however production,
+header submission, data submission and inclusion are interleaved, production stays refused and the chain height stays 3. -/
+theorem C08_idle_chain_deadlocks (acts : List Act) :
+    pendingRefuses zCfg (runA zCfg zNode acts).n = true ∧ (runA zCfg zNode acts).n.store.height = 3 := by
+  obtain ⟨d, h⟩ := zNode_dead.forever acts
+  exact ⟨d.refuses, h.trans zNode_facts.1⟩
+
+/-- **The full statement is false of the current code.** -/
+theorem C08_data_full_fails : ¬ C08_data_full := by
+  intro h
+  have h1 : pendingRefuses zCfg zNode.n = false := h zCfg zRun rfl
+  rw [zNode_facts.2.2.2.1] at h1
+  cases h1
+
+/-- the general reason: **when all blocks above the data watermark are empty, a data iteration is skipped and changes
+nothing** — empty blocks are counted as pending data and never leave the count -/
+theorem C08_empty_blocks_never_leave_the_count (a : ANode) (script : List DAAns)
+    (h : ∀ k, a.n.dataWm < k → k ≤ a.n.store.height → ∃ b, a.n.store.getBlock k = some b ∧ b.data.txs = []) :
+    (dataIter a script).1 = a ∧ (dataIter a script).2.1 = [] ∧ (dataIter a script).2.2.1 = [] :=
+  dataIter_idle h script
+
+/-- and such a node at the limit with no header pending refuses production for ever -/
+theorem C08_dead_for_ever {c : Cfg} {a : ANode} (d : Dead c a) (acts : List Act) :
+    pendingRefuses c (runA c a acts).n = true ∧ (runA c a acts).n.store.height = a.n.store.height :=
+  ⟨(d.forever acts).1.refuses, (d.forever acts).2⟩
+
+/-- **Partial statement** (everything except the refuted case): if the last block is non-empty — and the blocks of the
+pending range carry their height in the data metadata, as the producer writes it — then after one data iteration
+against an accepting DA layer `dataWm = height`; together with the header half neither counter keeps production refused. -/
+theorem C08_data_partial (a : ANode) (fails tail : List DAAns)
+    (htail : tail.headD (.ok none) = .ok none) (hnc : DAAns.canceled ∉ fails) (hf : fails.length < maxSubmitAttempts)
+    (hok : ∀ h, a.n.dataWm < h → h ≤ a.n.store.height → ∃ b, a.n.store.getBlock h = some b ∧
+      (b.data.txs ≠ [] → dataHeight b = h))
+    (hlt : a.n.dataWm < a.n.store.height)
+    (hlast : ∀ b, a.n.store.getBlock a.n.store.height = some b → b.data.txs ≠ []) :
+    (dataIter a (fails ++ tail)).1.n.dataWm = (dataIter a (fails ++ tail)).1.n.store.height :=
+  dataIter_reaches a fails tail htail hnc hf hok hlt hlast
+
+theorem C08_no_refusal_when_both_clear (c : Cfg) (n : Node) (h1 : n.hdrWm = n.store.height)
+    (h2 : n.dataWm = n.store.height) : pendingRefuses c n = false := by
+  unfold pendingRefuses
+  by_cases hm : c.maxPending = 0
+  · simp [hm]
+  · have : ¬ (n.store.height - n.hdrWm ≥ c.maxPending) := by omega
+    have : ¬ (n.store.height - n.dataWm ≥ c.maxPending) := by omega
+    simp [*]
+
+/-! ## non-vacuity -/
+
+/-- a chain whose last block is non-empty (limit 3, heights 1–3): the hypotheses of the partial theorem hold, both
+iterations clear the counters and production is not refused -/
+def vRun : List (SeqResp × ExecResp) := [(.batch [] 150 [], .ok), (.batch [] 200 [], .ok), (.batch [[7]] 300 [], .ok)]
+def vNode : ANode := { n := run zCfg (freshNode zCfg) vRun }
+
+example : pendingRefuses zCfg vNode.n = true ∧
+    (runOps vNode [.subH [], .subD []]).n.dataWm = 3 ∧ (runOps vNode [.subH [], .subD []]).n.hdrWm = 3 ∧
+    pendingRefuses zCfg (runOps vNode [.subH [], .subD []]).n = false := by
+  decide +kernel
+
+example : ∀ h ∈ [1, 2, 3], (vNode.n.store.getBlock h).map (fun b => decide (b.data.txs ≠ [] → dataHeight b = h)) = some true := by
+  decide +kernel
+
+/-- the deadlocked node really is at the limit with everything the DA layer could accept accepted -/
+example : zNode.daBlobs.map (fun e => (e.2.1, e.2.2)) = [(false, 3), (false, 2), (false, 1)] := by
+  decide +kernel
 
 end Spec.C08
